@@ -126,6 +126,12 @@ func TestWorker(t *testing.T) {
 			res.PlanSize, _ = strconv.Atoi(fmt.Sprint(ps))
 		}
 		emit(res)
+		if !res.OK {
+			// a failed run may leave process-global state of the system under test (pools,
+			// caches) inconsistent: never let it influence later seeds.  The driver restarts
+			// a fresh worker for the remaining seeds.
+			return
+		}
 	}
 }
 
